@@ -11,6 +11,9 @@ import time
 from fractions import Fraction
 
 VERIF = os.path.dirname(os.path.dirname(os.path.abspath(__file__)))
+# The registered commands always exercise /repo.  VERIF_REPO is a development aid only: it points the harness at a scratch
+# worktree (e.g. a seeded change under /tmp) without touching /repo; `check` then puts it first on PYTHONPATH.
+REPO = os.path.abspath(os.environ.get("VERIF_REPO", "/repo"))
 LEAN_DIR = os.path.join(VERIF, "lean")
 DRIVER = os.path.join(LEAN_DIR, ".lake", "build", "bin", "verde_model")
 WORK = os.path.join(VERIF, ".work")
@@ -157,6 +160,8 @@ def err_kind(exc):
         return "IOError"
     if isinstance(exc, TypeError):
         return "TypeError"
+    if type(exc) is RuntimeError:          # raised by the harness's own in-line checks: keep the reason
+        return "Other:RuntimeError:" + str(exc)[:100].replace(" ", "_")
     return "Other:" + type(exc).__name__
 
 
@@ -276,7 +281,7 @@ def source_hashes(files):
     import hashlib
     res = {}
     for f in files:
-        p = os.path.join("/repo", f)
+        p = os.path.join(REPO, f)
         try:
             res[f] = hashlib.sha256(open(p, "rb").read()).hexdigest()[:16]
         except OSError:
@@ -289,8 +294,8 @@ def assert_repo_verde():
         import verde
     except Exception as exc:  # noqa: BLE001
         raise Infra(f"cannot import verde: {exc!r}") from exc
-    if not os.path.abspath(verde.__file__).startswith("/repo/"):
-        raise Infra("verde not imported from /repo: " + verde.__file__)
+    if not os.path.abspath(verde.__file__).startswith(REPO + "/"):
+        raise Infra(f"verde not imported from {REPO}: " + verde.__file__)
     return verde
 
 
